@@ -220,8 +220,10 @@ func (e *Exec) binaryDecode(st *State, call *ast.CallExpr, args []Value) Value {
 
 func (e *Exec) decodeInto(st *State, loc Loc, sl *SliceVal, t types.Type, fs []fixedField, esz int64, inner, base *Term, little bool, okT *Term) {
 	if sl == nil {
-		// single value: build it field by field; when !ok contents are arbitrary
-		v := e.symbolicValue(st, t, "decoded")
+		// single value: scalars become fresh values constrained under ok; array fields keep their
+		// identity (they are stored inline) and get fresh contents constrained under ok.
+		cur := e.loadLoc(st, loc)
+		v := e.decodedValue(st, cur, t)
 		for _, f := range fs {
 			if f.blank {
 				continue
@@ -363,4 +365,36 @@ func (e *Exec) arrayLeafAt(st *State, v Value, path string) (func(int64) *Term, 
 		path = path[j:]
 	}
 	return nil, 0, false
+}
+
+// decodedValue builds the post-decode value of type t from the current value: fresh scalars,
+// same array identities with fresh contents.
+func (e *Exec) decodedValue(st *State, cur Value, t types.Type) Value {
+	switch x := cur.(type) {
+	case StructVal:
+		nf := map[string]Value{}
+		for _, f := range structFields(x.Typ) {
+			nf[f.Name()] = e.decodedValue(st, x.Fields[f.Name()], f.Type())
+		}
+		return StructVal{Fields: nf, Typ: x.Typ}
+	case ArrayVal:
+		et := x.Typ.Underlying().(*types.Array).Elem()
+		var ls []leaf
+		leavesOf(et, "", &ls)
+		for _, l := range ls {
+			key := memFamily(et) + l.Path
+			m := st.memMap(key, l.Sort)
+			ni := e.nm.fresh("decoded", SArray(l.Sort))
+			if l.Sort.Kind == KInt && l.Typ != nil && x.N <= 64 {
+				for k := int64(0); k < x.N; k++ {
+					st.assume(inRangeTerm(mkSelect(ni, mkInt64(k)), l.Typ))
+				}
+			}
+			st.mem[key] = mkStore(m, x.Arr, ni)
+		}
+		return x
+	case Scalar:
+		return e.symbolicValue(st, x.Typ, "decoded")
+	}
+	return e.symbolicValue(st, t, "decoded")
 }
